@@ -28,6 +28,13 @@ def relkey(case):
 def run(chk):
     W, tlc = chk.workdir, chk.tlc
     cases = []
+    # unbounded argument (Apalache): for ALL integer sizes, positions and separations the closed-form origin is the one and
+    # only origin that satisfies Touches and Flush (TLC checks the same equivalence inside a window around the reference)
+    apa = os.path.join(vlib.SPECS, "apalache", "PlacerInd.tla")
+    oc, secs = vlib.apalache(apa, ["--init=AnyInit", "--inv=ClosedFormIsTheSolution", "--length=0"])
+    chk.cov["apalache_closed_form_is_the_solution"] = {"outcome": oc, "seconds": secs, "scope": "all integers; 4 sides x orthogonal alignments x reflections"}
+    vlib.log(f"[apalache] PlacerInd: {oc} ({secs:.1f}s)")
+    chk.require(oc != "Error", "Apalache: the closed-form origin is not the unique solution of the placement relation (specification defect)")
     nrand = 1500 if chk.tier == "thorough" else 40
     for scope in ("single", "multi", "arrays", "random"):
         cfg = os.path.join(W, f"placer_{scope}.cfg")
